@@ -23,7 +23,7 @@ pub struct Out {
 
 impl Out {
   pub fn fail(&mut self, key: String, detail: String) {
-    if self.failures.len() < 400 { self.failures.push((key, detail)); }
+    if self.failures.len() < 20000 { self.failures.push((key, detail)); }
   }
   pub fn sample(&mut self, s: String) { if self.samples.len() < 3 { self.samples.push(s); } }
 }
